@@ -1317,6 +1317,31 @@ def gen_simd_kernels(repo):
     sk = ' ; '.join('%s(%s)' % (c, ' '.join(a.split())) for c, a in calls if not c.endswith('set_epi8'))
     out += '/-- %s: horiz_convolution_one_row: every intrinsic / helper call with its arguments, in textual order -/\n' % f
     out += 'def u8x4_avx2_one_row_skeleton : String := "%s"\n\n' % sk.replace('"', '\\"')
+    # U8x3 (RGB8), SSE4.1, one-row kernel: loads of 16 / 8 bytes that must not run past the row (data-dependent loop exits)
+    f = 'src/convolution/u8x3/sse4.rs'
+    with open(os.path.join(repo, f)) as fh:
+        src3 = fh.read()
+    m = re.search(r'unsafe fn horiz_convolution_one_row<const PRECISION: i32>\(.*?\n\}', src3, re.S)
+    if not m:
+        raise TranslationError("%s: horiz_convolution_one_row not found" % f)
+    body = re.sub(r'//[^\n]*', '', m.group(0))
+    body = re.sub(r'/\*.*?\*/', '', body, flags=re.S)
+    masks = []
+    for a in re.finditer(r'let (\w+_sh\d+) = _mm_set_epi8\(([^;]*?)\);', body, re.S):
+        vals = [int(x) for x in a.group(2).replace('\n', ' ').split(',') if x.strip()]
+        if len(vals) != 16:
+            raise TranslationError("%s: mask %s does not have 16 entries" % (f, a.group(1)))
+        masks.append((a.group(1), list(reversed(vals))))
+    if [n for n, _ in masks] != ['pix_sh1', 'coef_sh1', 'pix_sh2', 'coef_sh2']:
+        raise TranslationError("%s: expected the masks pix_sh1, coef_sh1, pix_sh2, coef_sh2, found %s" % (f, [n for n, _ in masks]))
+    for n, v in masks:
+        out += '/-- %s: horiz_convolution_one_row: shuffle mask %s, byte 0 first -/\n' % (f, n)
+        out += 'def u8x3_sse4_%s : List Int := [%s]\n\n' % (n, ', '.join(str(x) if x >= 0 else '(%d)' % x for x in v))
+    calls = re.findall(r'\b(_mm_\w+(?:::<\w+>)?|simd_utils::\w+|chunks_exact|saturating_sub|split_at)\(([^()]*(?:\([^()]*\)[^()]*)*)\)', body)
+    sk = ' ; '.join('%s(%s)' % (c, ' '.join(a.split())) for c, a in calls if not c.endswith('set_epi8'))
+    conds = re.findall(r'\b(if x (?:<|>=) max_x)', body)
+    out += '/-- %s: horiz_convolution_one_row: every intrinsic / helper call with its arguments, in textual order, and the loop guards -/\n' % f
+    out += 'def u8x3_sse4_one_row_skeleton : String := "%s | %s"\n\n' % (sk.replace('"', '\\"'), ' ; '.join(conds))
     # the vertical pass for 8-bit components (all four u8 pixel types)
     f = 'src/convolution/vertical_u8/sse4.rs'
     with open(os.path.join(repo, f)) as fh:
